@@ -303,8 +303,11 @@ fn gen_case(rng: &mut Rng) -> Case {
         }
         if sizes.len() >= 2 && sizes[0].value >= 1 && sizes[1].value >= 1 && g.rng.chance(1, 3) {
             uses.insert("join sizes");
-            params.push(format!("ja: [(u8, u8); {}]", sizes[0].name));
-            params.push(format!("jb: [(u8, u16); {}]", sizes[1].name));
+            // (the sizes are sometimes written as const expressions)
+            let sa = if g.rng.chance(1, 3) { format!("const {{ {} + 0usize }}", sizes[0].name) } else { sizes[0].name.clone() };
+            let sb = if g.rng.chance(1, 3) { format!("const {{ 0usize + {} }}", sizes[1].name) } else { sizes[1].name.clone() };
+            params.push(format!("ja: [(u8, u8); {sa}]"));
+            params.push(format!("jb: [(u8, u16); {sb}]"));
             body += "    for joined in join_iter(ja, jb) { let ((k1, x), (k2, y)) = joined; acc = acc + (x as u64) + (y as u64) + (k1 as u64); }\n";
         }
     }
@@ -400,6 +403,26 @@ fn gen_case(rng: &mut Rng) -> Case {
     flush(&mut tok, &mut substituted);
     if let Some((_, value)) = &inline_size {
         substituted = substituted.replace("INLINESIZE", &value.to_string());
+    }
+    // the join sizes that are written as `const { N + 0usize }` / `const { 0usize + N }` become plain
+    // numbers in the substituted program (the const-expression form must not be what decides acceptance)
+    for (pre, post) in [("const { ", "usize + 0usize }"), ("const { 0usize + ", "usize }")] {
+        let mut out = String::new();
+        let mut rest = substituted.as_str();
+        while let Some(pos) = rest.find(pre) {
+            let after = &rest[pos + pre.len()..];
+            let digits: String = after.chars().take_while(|c| c.is_ascii_digit()).collect();
+            if !digits.is_empty() && after[digits.len()..].starts_with(post) {
+                out.push_str(&rest[..pos]);
+                out.push_str(&digits);
+                rest = &after[digits.len() + post.len()..];
+            } else {
+                out.push_str(&rest[..pos + pre.len()]);
+                rest = after;
+            }
+        }
+        out.push_str(rest);
+        substituted = out;
     }
     Case { exts, defs, with_consts, substituted, uses, any_wrap, literal_probe }
 }
